@@ -272,6 +272,66 @@ fn long_cases() -> Vec<(Case, bool)> {
     out
 }
 
+// Grouping is also what gets evaluated: flat chains of 3..64 operands of one
+// tier, with values, against the left fold computed here and against the
+// same chain with every left group parenthesised.
+fn evaluated_chains(ctx: &Ctx) -> Vec<(Case, bool)> {
+    let mut out = vec![];
+    let mut t = sdmodel::tape::tape_from_seed(ctx.sub_seed("evaluated_chains", 0), 200_000);
+    let rounds = ctx.n(60, 2_000);
+    for n in [3usize, 5, 9, 16, 17, 18, 24, 32, 33, 40, 64] {
+        for _ in 0..rounds {
+            // Logical tier.
+            let vals: Vec<bool> = (0..n).map(|_| t.chance(1, 2)).collect();
+            let ops: Vec<bool> = (0..n - 1).map(|_| t.chance(1, 2)).collect(); // true = &&
+            let mut acc = vals[0];
+            let mut flat = vals[0].to_string();
+            let mut grouped = vals[0].to_string();
+            for k in 1..n {
+                let sym = if ops[k - 1] { "&&" } else { "||" };
+                acc = if ops[k - 1] { acc && vals[k] } else { acc || vals[k] };
+                flat = format!("{flat} {sym} {}", vals[k]);
+                grouped = format!("({grouped} {sym} {})", vals[k]);
+            }
+            let pre = "fn id(v) {\n    return v\n}\n";
+            // Literals, and the same through variables / calls.
+            let as_vars: String = vals.iter().enumerate().map(|(k, v)| format!("b{k} := {v}\n")).collect();
+            let mut flat_vars = "b0".to_string();
+            for k in 1..n {
+                flat_vars = format!("{flat_vars} {} {}", if ops[k - 1] { "&&" } else { "||" }, if k % 5 == 0 { format!("id(b{k})") } else { format!("b{k}") });
+            }
+            ctx.label("evaluated chain: logical tier");
+            out.push((Case{property: "C08".into(), kind: "evaluated_chain".into(), srcs: vec![format!("{pre}{as_vars}print({flat})\nprint({flat_vars})\nprint({grouped})\n").into_bytes()], pred: Pred::Expect(Expect::ok(format!("{acc}\n{acc}\n{acc}\n").into_bytes())), note: format!("{n} operands of && / ||: value of the left fold")}, n > 4));
+            // Additive tier over small ints (no overflow possible).
+            let ivals: Vec<i64> = (0..n).map(|_| t.range(0, 99)).collect();
+            let iops: Vec<bool> = (0..n - 1).map(|_| t.chance(1, 2)).collect(); // true = +
+            let mut iacc = ivals[0];
+            let mut iflat = ivals[0].to_string();
+            for k in 1..n {
+                iacc = if iops[k - 1] { iacc + ivals[k] } else { iacc - ivals[k] };
+                iflat = format!("{iflat} {} {}", if iops[k - 1] { "+" } else { "-" }, ivals[k]);
+            }
+            ctx.label("evaluated chain: additive tier");
+            out.push((Case{property: "C08".into(), kind: "evaluated_chain".into(), srcs: vec![format!("print({iflat})\n").into_bytes()], pred: Pred::Expect(Expect::ok(format!("{iacc}\n").into_bytes())), note: format!("{n} operands of + / -: value of the left fold")}, n > 4));
+            // Multiplicative tier with comparisons: ((a * b) % c) == d ... as
+            // a metamorphic pair (flat vs fully grouped), whatever the outcome.
+            let mops = ["*", "/", "%", "*", "%"];
+            let mut mflat = format!("{}", 1 + t.range(0, 9));
+            let mut mgrouped = mflat.clone();
+            for k in 1..n.min(24) {
+                let sym = mops[t.pick(mops.len())];
+                let v = 1 + t.range(0, 9);
+                mflat = format!("{mflat} {sym} {v}");
+                mgrouped = format!("({mgrouped} {sym} {v})");
+                let _ = k;
+            }
+            ctx.label("evaluated chain: multiplicative tier");
+            out.push((Case{property: "C08".into(), kind: "evaluated_chain".into(), srcs: vec![format!("print({mflat})\n").into_bytes(), format!("print({mgrouped})\n").into_bytes()], pred: Pred::Same{same_msg: true, positions: None}, note: format!("{} operands of * / %: flat vs every left group parenthesised", n.min(24))}, n > 4));
+        }
+    }
+    out
+}
+
 fn minus_cases() -> Vec<(Case, bool)> {
     let a = || var("a");
     let list: Vec<(&str, Expr)> = vec![
@@ -367,6 +427,7 @@ pub fn run(ctx: &Ctx) {
     ctx.mark_exhaustive(&format!("all operator sequences of length 1..={maxlen} over 16 binary operators"));
     ctx.judge_all(minus_cases(), Via::Cli, None);
     ctx.judge_all(long_cases(), Via::Cli, None);
+    ctx.judge_all(evaluated_chains(ctx), Via::Fast, None);
     let n = ctx.n(100_000, 2_000_000);
     ctx.proptest_tapes("trees", n, 300, Via::Cli, None, |t| {
         let dd = 2 + t.pick(6);
